@@ -216,19 +216,13 @@ def _ctx(tname, si, ai):
     return dict(c=c, a=a, kw=kw, holder={"inner": c})
 
 
-def _meth_native(mi, ai, ri, si, prime):
+def _meth_one(mi, ai, ri, si):
+    """One immutable-sandbox render of route ri / method mi on a fresh sample; True iff the property holds."""
     name = PUBLIC[TNAME][mi]
     asyncm = P.get("asyncm")
     ctx = _ctx(TNAME, si, ai)
     ctx["mname"] = name
     before = copy.deepcopy(ctx)
-    if prime:
-        pctx = copy.deepcopy(ctx)
-        pctx["holder"] = {"inner": pctx["c"]}
-        try:
-            _render(TPL[("plain", mi, ri)], asyncm, dict(pctx, rec=Rec()))
-        except Exception:
-            pass
     rec = Rec()
     exc = None
     try:
@@ -251,50 +245,82 @@ def _meth_native(mi, ai, ri, si, prime):
     return True
 
 
-def NOT_EXCL_IDX(m):
-    for e in EXCL_IDX:
-        if m == e:
+def _meth_native(mi, ai, ri):
+    """Both sample containers; each: immutable render, then a plain SandboxedEnvironment renders the same
+    template (same (type, attr) pairs) on a copy, then the immutable render again -- a verdict of the plain
+    sandbox must not leak into the immutable one."""
+    asyncm = P.get("asyncm")
+    for si in range(2):
+        if not _meth_one(mi, ai, ri, si):
+            return False
+        pctx = _ctx(TNAME, si, ai)
+        pctx["mname"] = PUBLIC[TNAME][mi]
+        try:
+            _render(TPL[("plain", mi, ri)], asyncm, dict(pctx, rec=Rec()))
+        except Exception:
+            pass
+        if not _meth_one(mi, ai, ri, si):
             return False
     return True
+
+
+_DEC = {}
+
+
+def _dec(key, v, n):
+    """pick() once per path: the decoding done inside the precondition is reused by the body."""
+    c = _DEC.get(key)
+    if c is not None and c[0] is v and c[2] == n:
+        return c[1]
+    r = pick(v, n)
+    _DEC[key] = (v, r, n)
+    return r
+
+
+def NOT_EXCL_IDX(m):
+    return _dec("m", m, NM()) not in EXCL_IDX
 
 
 def NM():
     return len(PUBLIC[TNAME])
 
 
-def meth_ok(m: int, a: int, r: int, s: int, prime: bool) -> bool:
+def meth_ok(m: int, a: int, r: int) -> bool:
     """
-    pre: 0 <= m < NM() and 0 <= a < MAXA and 0 <= r < len(ROUTES) and 0 <= s < 2 and NOT_EXCL_IDX(m)
+    pre: 0 <= m < NM() and 0 <= a < MAXA and 0 <= r < len(ROUTES) and NOT_EXCL_IDX(m)
     post: _
     """
-    mi = pick(m, NM())
+    # NOT_EXCL_IDX: the (type, method) pairs of SUSPECTED_DEFECTS are excluded (exactly those)
+    mi = _dec("m", m, NM())
     appl = APPL[TNAME][mi]
     ai = pick(a, MAXA)
     if ai >= len(appl):
         return True
     ri = pick(r, len(ROUTES))
-    si = pick(s, 2)
-    pr = pickb(prime)
     with NoTracing():
-        return _meth_native(mi, appl[ai], ri, si, pr)
+        return _meth_native(mi, appl[ai], ri)
 
 
 # ------------------------------------------------------------------ mode A: symbolic container contents
 DATA_METHODS = {
     "list": ["append", "extend", "insert", "pop", "remove", "reverse", "sort", "clear", "copy", "count", "index"],
-    "deque": ["append", "extend", "insert", "pop", "remove", "reverse", "clear", "copy", "count", "index"],
+    "deque": ["append", "extend", "insert", "pop", "remove", "reverse", "clear", "copy", "count"],
     "dict": ["pop", "popitem", "setdefault", "update", "clear", "get", "copy", "keys"],
 }
 DATA_SRC = {
     "append": "c.append(x)", "extend": "c.extend([x, y])", "insert": "c.insert(x, y)", "pop": "c.pop()", "remove": "c.remove(x)",
     "reverse": "c.reverse()", "sort": "c.sort()", "clear": "c.clear()", "copy": "c.copy()", "count": "c.count(x)", "index": "c.index(x)",
-    "popitem": "c.popitem()", "setdefault": "c.setdefault(x, y)", "update": "c.update({x: y})", "get": "c.get(x)", "keys": "c.keys()|list",
+    "popitem": "c.popitem()", "setdefault": "c.setdefault(x, y)", "update": "c.update({0: x, 7: y})", "get": "c.get(x)", "keys": "c.keys()|list",
 }
+
+
+def MAXLEN():
+    return P.get("maxlen", 3)
 
 
 def data_ok(xs: List[int], x: int, y: int, m: int) -> bool:
     """
-    pre: len(xs) <= 3 and 0 <= m < len(DATA_METHODS[TNAME])
+    pre: len(xs) <= MAXLEN() and 0 <= m < len(DATA_METHODS[TNAME])
     post: _
     """
     mi = pick(m, len(DATA_METHODS[TNAME]))
@@ -309,12 +335,12 @@ def data_ok(xs: List[int], x: int, y: int, m: int) -> bool:
         c = {}
         before = {}
         for i, v in enumerate(xs):
-            c[v] = i
-            before[v] = i
+            c[i] = v
+            before[i] = v
     t = TPL[("data", name)]
     exc = None
     try:
-        _render(t, P.get("asyncm"), dict(c=c, x=x, y=y))
+        _render(t, P.get("asyncm"), dict(c=c, x=x, y=y, rec=Rec()))
     except Exception as e:
         exc = type(e).__name__
     if name in MUT[TNAME] and exc != "SecurityError":
@@ -406,10 +432,7 @@ def _excluded_filter_input(expr, value):
 
 
 def NOT_EXCL_F(e, d):
-    for ei, di in EXCL_F:
-        if e == ei and d == di:
-            return False
-    return True
+    return (_dec("e", e, NF()), _dec("d", d, len(DATA_NAMES))) not in EXCL_F
 
 
 def filt_ok(e: int, d: int) -> bool:
@@ -417,8 +440,9 @@ def filt_ok(e: int, d: int) -> bool:
     pre: 0 <= e < NF() and 0 <= d < len(DATA_NAMES) and NOT_EXCL_F(e, d)
     post: _
     """
-    ei = pick(e, NF())
-    di = pick(d, len(DATA_NAMES))
+    # NOT_EXCL_F: the (expression, data) pairs of suspected defect 3 (indent on list/deque) are excluded
+    ei = _dec("e", e, NF())
+    di = _dec("d", d, len(DATA_NAMES))
     with NoTracing():
         return _filt_native(ei, di)
 
@@ -437,6 +461,7 @@ def setup(param):
     TNAME = P.get("type", "list")
     TPL.clear()
     ENVS.clear()
+    _DEC.clear()
     FT = []
     EXCL_F = []
     EXCL_IDX = [PUBLIC[t].index(n) for t, n in EXCLUDED if t == TNAME and n in PUBLIC[t]]
@@ -454,7 +479,7 @@ def setup(param):
         imm = _env(ImmutableSandboxedEnvironment, asyncm)
         for name in DATA_METHODS[TNAME]:
             src = "c.pop(x)" if (TNAME, name) == ("dict", "pop") else DATA_SRC[name]
-            TPL[("data", name)] = imm.from_string("{{ %s }}" % src)
+            TPL[("data", name)] = imm.from_string("{%% set r = %s %%}{{ rec('r', r) }}" % src)
     elif kind == "filt":
         exprs = _all_exprs()
         k = P.get("chunk", 0)
@@ -472,26 +497,27 @@ def conditions(tier, seed):
     out = []
     for t in TYPES:
         out.append(Cond(f"attr_ok[{t}]", "attr_ok", mode="A", param={"type": t, "kind": "attr"}, timeout=to,
-                        witnesses=[[MUT[t][0], False], [MUT[t][1], True], [MUT[t][-1], True]],
+                        witnesses=[[n, i % 2 == 1] for i, n in enumerate(n for n in MUT[t] if (t, n) not in EXCLUDED)][:4],
                         bounds=f"all strings attr (len <= 28) that Python's own behaviour marks as mutating methods of {t} "
                                f"({len(MUT[t])} names computed at run time), minus the listed suspected defects; "
                                "with/without a plain SandboxedEnvironment consulted first"))
     for t in ("list", "deque", "dict"):
         for asyncm in (False, True):
             out.append(Cond(f"data_ok[{t},{'async' if asyncm else 'sync'}]", "data_ok", mode="A",
-                            param={"type": t, "kind": "data", "asyncm": asyncm}, timeout=to,
+                            param={"type": t, "kind": "data", "asyncm": asyncm, "maxlen": 4 if th else 3}, timeout=to,
                             witnesses=[[[3, 1, 2], 1, 5, 0], [[], 0, 0, 3], [[4, 4], 4, 1, 4], [[2, 1], 0, 7, 1]],
-                            bounds=f"{t} built from <= 3 arbitrary ints, arbitrary int arguments, method selector over {DATA_METHODS[t]}"))
+                            bounds=f"{t} built from <= {4 if th else 3} arbitrary ints, arbitrary int arguments, method selector over {DATA_METHODS[t]}"))
     for t in TYPES:
         for asyncm in (False, True):
             nm = len(PUBLIC[t])
-            wit = [[0, 0, 0, 0, False], [nm - 1, 0, 1, 1, True], [min(3, nm - 1), 1, 4, 0, True], [1, 0, 7, 0, False], [2, 0, 12, 1, True]]
+            wit = [[0, 0, 0], [nm - 1, 0, 1], [min(3, nm - 1), 1, 4], [1, 0, 7], [2, 0, 12]]
             excl = [PUBLIC[t].index(n) for tt, n in EXCLUDED if tt == t]
             wit = [w for w in wit if w[0] not in excl]
             out.append(Cond(f"meth_ok[{t},{'async' if asyncm else 'sync'}]", "meth_ok", mode="B",
                             param={"type": t, "kind": "meth", "asyncm": asyncm}, timeout=to * 2 if not th else to, witnesses=wit,
                             bounds=f"every public name of {t} ({nm}, from dir()) x applicable argument tuples (<= {MAXA} of {len(ARGS)}) x "
-                                   f"{len(ROUTES)} access routes x 2 sample containers x primed-by-plain-sandbox flag"))
+                                   f"{len(ROUTES)} access routes; per selector both sample containers, each rendered before and after a plain "
+                                   "SandboxedEnvironment rendered the same template"))
     nf = len(_all_exprs())
     for asyncm in (False, True):
         for k in range(NCHUNK):
